@@ -61,6 +61,11 @@ def worker(unit, emit):
             for script in scripts1[::p['opt_stride']]:
                 for s, d in inputs.concretise(base, script, rnd, k=1):
                     rec(s, d, kw)
+    # table-driven presentations: a word of a base replaced by a string constant of the module
+    lits = inputs.literals(mod, cap=p['lits'])
+    for base in bases[:p['lit_bases']]:
+        for s in inputs.substitute_tokens(base, lits):
+            rec(s, 'literal-substitution', {})
 
 
 def main():
@@ -69,7 +74,7 @@ def main():
     scripts1 = gen_scripts(chk, 'Gen_Decor1')
     scripts2 = gen_scripts(chk, 'Gen_Decor2R', simulate='num=%d' % (150 if quick else 3000), depth=3)
     p = {'seed': chk.seed, 'bases': 3 if quick else 25, 'pres': 30 if quick else 400, 'k': 1 if quick else 3,
-         'opt_stride': 3 if quick else 1}
+         'opt_stride': 3 if quick else 1, 'lits': 400 if quick else 3000, 'lit_bases': 1 if quick else 4}
     units = [(name, scripts1, scripts2, p) for name, _ in lib.modules()]
     shards = chk.drive(units, worker)
     extra = run.merge_extra(shards)
